@@ -6,6 +6,7 @@ RULE = ('every n below a bound (and a few n <= 1) under seeded draws; Carmichael
         'strong pseudoprimes to small bases (search for base 2 + published psi_k), provable random primes (Pocklington chains) and '
         'semiprimes up to 512 bits: verdict compared with the model AND with a deterministic reference; scripted adversarial '
         'draws (all bases 1, all n-1, known strong liars, liars then a witness, rejected draws): model == implementation only; '
+        'the consumer ecm::factorize on perfect powers of composites, prime powers, Carmichael numbers and their squares (every base prime, product n); '
         'non-trivial = odd n > 2 (the Miller-Rabin rounds run)')
 TIMEOUT = 3000      # per service batch; a 512-bit prime costs the extracted model ~2 min (20 rounds of unary-binary modpow)
 PROVED = [
@@ -281,4 +282,18 @@ def cases(rng, tier):
     for p in [3, 5, 7, 13, 17, 97, 257, 65537, 2 ** 31 - 1, 2 ** 61 - 1]:
         out.append(mk(p, seed(), script_bases(p, [1, p - 1, 2 % p or 1, (p - 1) // 2 or 1] * 5), 'script-prime', expected=True))
         out.append(mk(p, seed(), [255] * 12, 'script-prime', expected=True))
+    # 7. the consumer named by the property: ecm::factorize stops splitting exactly where is_prime says "prime". Perfect powers of
+    # composites, prime powers, Carmichael numbers and their squares: every base reported must be prime and the product n
+    # (same operation, model and oracle as C01; the model replays the logged draws)
+    from props import c01 as C01
+    cons = []
+    sp = [3, 5, 7, 11, 13, 101, 103, 65537, 1000003]
+    for i, p in enumerate(sp):
+        for q in sp[i + 1:i + 3]:
+            cons += [(p * q) ** 2, (p * q) ** 3, p * p * q, (p * q) ** 2 * 2]
+    cons += [6 ** 2, 6 ** 3, 10 ** 4, 12 ** 2, 15 ** 4, 30 ** 3, 2 ** 10, 3 ** 7, 7 ** 5, 101 ** 3, 561, 561 ** 2, 1105, 1729, 1729 ** 2, 2821, 6601 * 6601, 2047, 2047 ** 2,
+             3215031751, 4 * 3215031751]
+    for n in cons:
+        if n < 2 ** 64:
+            out.append(C01.c_fact('ecm_factorize', n, seed(), [], 'debug', 'consumer-ecm-factorize'))
     return out
